@@ -525,6 +525,87 @@ def d4(cx: Cx, ob: Ob) -> None:
                 ob.violate(fn.qualname, where(fn, ev.line), "positional arguments beyond records passed to Converter(...)", detail="positional")
 
 
+def _table_view(ob: Ob, fn, me, name: str, t, k: str, v: str) -> bool:
+    """``{K: V for K, V in self.T.items() if <filters>}`` read as a view of a lookup table.  A table maps every name
+    of one side of a record r (canonical field + synonym list) to a canonical field of r, names are owned by one
+    record (C04) and a canonical value is not among the synonyms of its own side (Record validators), so
+    ``self.T2.get(<canonical field f of r>)`` is r's value field of T2 and ``K == <field f of r>`` keeps exactly the
+    name K that IS r.f.  Returns True when the comprehension was such a view and has been judged."""
+    from ..rules import TABLES
+
+    tgt, it, ifs = t[3][0]
+    if not (op(it) == "call" and callee_name(it) == "items" and not it[2] and op(it[1][1]) == "attr" and it[1][1][1] == me and it[1][1][2] in TABLES and op(tgt) == "tuple" and len(tgt[1]) == 2):
+        return False
+    T = it[1][1][2]
+    K, V = tgt[1]
+    fk = set(TABLES[T][0])
+    vf = TABLES[T][1]
+
+    def sym(x):
+        if x == K:
+            return ("K",)
+        if x == V:
+            return ("F", vf)
+        key = None
+        if op(x) == "call" and callee_name(x) == "get" and len(x[2]) == 1 and op(x[1][1]) == "attr" and x[1][1][1] == me and x[1][1][2] in TABLES:
+            T2, key = x[1][1][2], x[2][0]
+        elif op(x) == "item" and op(x[1]) == "attr" and x[1][1] == me and x[1][2] in TABLES:
+            T2, key = x[1][2], x[2]
+        if key is not None:
+            sk = sym(key)
+            if sk is not None and ((sk[0] == "F" and sk[1] in TABLES[T2][0]) or (sk[0] == "K" and fk and fk <= set(TABLES[T2][0]))):
+                return ("F", TABLES[T2][1])
+        return None
+
+    for c in ifs:
+        if not (op(c) == "cmp" and c[1] in ("==", "!=")):
+            ob.undecide(f"{name}: filter `{show(c)[:50]}` over {T} is not a comparison of names")
+            return True
+        a, b = sym(c[2]), sym(c[3])
+        if a is None or b is None:
+            ob.undecide(f"{name}: filter `{show(c)[:50]}` over {T} not understood")
+            return True
+        if a[0] == "K" and b[0] == "F":
+            a, b = b, a
+        if a[0] == "F" and b[0] == "K":
+            side = next((sd for sd in (TABLES["prefix_map"][0], TABLES["reverse_prefix_map"][0]) if a[1] in sd), None)
+            if side is None or not fk <= set(side):
+                ob.undecide(f"{name}: filter `{show(c)[:50]}` compares names of different kinds")
+                return True
+            fk = (fk & {a[1]}) if c[1] == "==" else (fk - {a[1]})
+        elif a[0] == "F" and b[0] == "F":
+            if a[1] == b[1]:
+                if c[1] == "!=":
+                    fk = set()
+                # `==` of a field with itself: always true, the filter selects nothing
+                ob.site(f"{fn.where} {fn.qualname}", f"filter `{show(c)[:50]}` compares r.{a[1]} with itself")
+            else:
+                ob.undecide(f"{name}: filter `{show(c)[:50]}` compares two different fields")
+                return True
+        else:
+            ob.undecide(f"{name}: filter `{show(c)[:50]}` not understood")
+            return True
+    kk, vv = t[2][1], t[2][2]
+    sk, sv = sym(kk), sym(vv)
+    if sk is None or sv is None:
+        ob.undecide(f"{name}: entries `{show(kk)[:30]}: {show(vv)[:30]}` of the view over {T} not understood")
+        return True
+    keys = fk if sk[0] == "K" else {sk[1]}
+    ob.site(f"{fn.where} {fn.qualname}", f"view of {T}: keys {sorted(keys)} -> {sv[1] if sv[0] == 'F' else 'K'}")
+    if sv != ("F", v):
+        ob.violate(fn.qualname, fn.where, f"{name} is a view of {T} whose values are {sv}, expected the record's {v}", detail="roles")
+    if keys != {k}:
+        extra = sorted(keys - {k})
+        ob.violate(
+            fn.qualname,
+            fn.where,
+            f"{name} is a view of {T} that keeps the entries keyed by {sorted(keys) or 'nothing'}; expected exactly the canonical `{k}` of every record" + (f" - the filter does not remove {extra} (it compares a value with itself or with what it always equals)" if extra else ""),
+            witness="a record with URI-prefix synonyms: they show up as keys of reverse_bimap, which is then not the inverse of bimap",
+            detail="view-keys:" + "+".join(sorted(keys)),
+        )
+    return True
+
+
 @obligation("C04-D5", "bimap / reverse_bimap are built from (r.prefix, r.uri_prefix) of the records, in opposite orientation", floor=2)
 def d5(cx: Cx, ob: Ob) -> None:
     # properties were inlined into the property table; read the methods directly
@@ -538,6 +619,8 @@ def d5(cx: Cx, ob: Ob) -> None:
                 ob.undecide(f"{name} is not a single dict comprehension")
                 continue
             tgt, it, ifs = t[3][0]
+            if _table_view(ob, fn, me, name, t, k, v):
+                continue
             if it != ("attr", me, "records"):
                 ob.violate(fn.qualname, fn.where, f"{name} iterates `{show(it)[:40]}`, not self.records", detail="source")
             if ifs:
@@ -555,10 +638,52 @@ def x3(cx: Cx, ob: Ob) -> None:
     cached_derivations(cx, ob)
 
 
+def summary_roles(cx: Cx, ob: Ob) -> None:
+    """Every ``DuplicateSummary(...)`` the detectors build puts the two records into the fields declared ``Record`` and
+    the clashing string into the field declared ``str``: with positional arguments the roles are fixed by the ORDER
+    of the fields in the class, which a sibling call site may not have followed when that order was changed."""
+    ci = cx.model.classes.get(f"{API}.DuplicateSummary")
+    if ci is None:
+        ob.undecide("DuplicateSummary not found")
+        return
+    order = list(ci.fields)
+    kinds = {n: ("record" if a is not None and "Record" in ast.unparse(a) else "str" if a is not None and ast.unparse(a) == "str" else "?") for n, (a, _) in ci.fields.items()}
+    for det in ("_get_duplicate_uri_prefixes", "_get_duplicate_prefixes"):
+        fn = cx.model.functions.get(f"{API}.{det}")
+        if fn is None:
+            continue
+        s = cx.summary(fn, ob.id)
+        for t, _, _ in s.all_terms():
+            for x in subterms(t):
+                if op(x) != "comp" or not (op(x[2]) == "call" and op(x[2][1]) == "cls" and x[2][1][1].endswith(".DuplicateSummary")):
+                    continue
+                call = x[2]
+                rec_vars, name_vars = set(), set()
+                for tgt, it, _ in x[3]:
+                    vs = tgt[1] if op(tgt) == "tuple" else (tgt,)
+                    # generators that range over the records themselves vs. over names taken from them
+                    over_records = any(y == ("param", fn.params[0].name) for y in subterms(it)) and not any(op(y) == "attr" and y[1] in rec_vars for y in subterms(it))
+                    (rec_vars if over_records else name_vars).update(vs)
+                bound = dict(zip(order, call[2]))
+                bound.update({k: v for k, v in call[3] if k})
+                ob.site(f"{fn.where} {fn.qualname}", f"DuplicateSummary({', '.join(f'{k}={show(v)[:12]}' for k, v in bound.items())})")
+                for k, v in bound.items():
+                    got = "record" if v in rec_vars else "str" if v in name_vars else "?"
+                    if kinds.get(k, "?") != "?" and got != "?" and kinds[k] != got:
+                        ob.violate(
+                            fn.qualname,
+                            fn.where,
+                            f"{det} fills DuplicateSummary.{k} (declared {kinds[k]}) with `{show(v)[:30]}`, a {got}: the positional arguments do not follow the order of the fields {order}, so the error lists a string where a clashing record is expected and a record where the clashing prefix is",
+                            witness="e.duplicates[0].prefix is a Record and .record_2 the clashing string",
+                            detail=f"summary-roles:{k}",
+                        )
+
+
 @obligation("C04-D6", "'listing the clashing records': DuplicateValueError keeps the list of clashes it is given unchanged (no de-duplication or truncation between the detector and the exception), and __init__ raises exactly what the detector returned", floor=3)
 def d6(cx: Cx, ob: Ob) -> None:
     from ..terms import subterms
 
+    summary_roles(cx, ob)
     cls = cx.model.cls(f"{API}.DuplicateValueError", ob.id)
     init = cls.methods.get("__init__")
     if init is None:
